@@ -152,11 +152,38 @@ def mklogic(log, gv):
     return lg
 
 
+class _SelfSends:
+    """counts the events the interpreter sends to ITSELF (raise, done.state, ...): every enqueue goes through the
+    public send(), so an instance-level wrapper sees them; the harness flags its own calls"""
+
+    def __init__(self, it, is_async):
+        self.n = 0
+        self.mine = False
+        orig = it.send
+        if is_async:
+            async def send(*a, **k):
+                if not self.mine:
+                    self.n += 1
+                return await orig(*a, **k)
+        else:
+            def send(*a, **k):
+                if not self.mine:
+                    self.n += 1
+                return orig(*a, **k)
+        it.send = send
+
+    def take(self):
+        n, self.n = self.n, 0
+        return n
+
+
 def observe(it, log, err="", nerr=0, cuts=0):
     ids = sorted(n.id for n in it._active_state_nodes)
     hist = {k: [n.id for n in v] for k, v in it._history.items()}
     ctx = {k: v for k, v in dict(it.context).items() if isinstance(v, int)} if isinstance(it.context, dict) else {}
-    return {"C": ids, "S": it.status, "T": list(log), "H": hist, "E": err, "X": nerr, "K": ctx, "cuts": cuts}
+    q = it._event_queue
+    return {"C": ids, "S": it.status, "T": list(log), "H": hist, "E": err, "X": nerr, "K": ctx, "cuts": cuts,
+            "qlen": q.qsize() if hasattr(q, "qsize") else len(q)}
 
 
 def _fingerprint(it):
@@ -204,16 +231,20 @@ def run_sync(case):
     it.use(RecorderPlugin(log))
     cnt = _COUNTER
     cnt.reset()
+    ss = _SelfSends(it, False)
     try:
         it.start()
         out.append(observe(it, log, cuts=cnt.cuts))
     except XStateMachineError as x:
         out.append(observe(it, log, type(x).__name__, cuts=cnt.cuts))
+    out[-1].update(chain_cuts=cnt.chain_cuts, self_sends=ss.take())
     for op in case_ops(case):
         log.clear()
         cnt.reset()
         can, mutated = _probe_can(it, op, log)
         log.clear()
+        ss.take()
+        ss.n -= 1                # the harness's own send below
         try:
             it.send(_mk_event(op))
             out.append(observe(it, log, cuts=cnt.cuts))
@@ -221,6 +252,7 @@ def run_sync(case):
             out.append(observe(it, log, type(x).__name__, cuts=cnt.cuts))
         out[-1]["can"] = can
         out[-1]["can_mutated"] = mutated
+        out[-1].update(chain_cuts=cnt.chain_cuts, self_sends=max(0, ss.take()))
     it.stop()
     return out
 
@@ -263,6 +295,7 @@ class _LogCounter(logging.Handler):
         super().__init__(level=logging.ERROR)
         self.n = 0
         self.cuts = 0
+        self.chain_cuts = 0     # the queue / raise-chain bound (not the always-settling bound)
 
     def emit(self, record):
         try:
@@ -273,10 +306,13 @@ class _LogCounter(logging.Handler):
             self.n += 1
         if "Exceeded" in msg:
             self.cuts += 1
+            if "chained self-raised events" in msg or "queued events in a single macrostep" in msg:
+                self.chain_cuts += 1
 
     def reset(self):
         self.n = 0
         self.cuts = 0
+        self.chain_cuts = 0
 
 
 _COUNTER = _LogCounter()
@@ -293,10 +329,12 @@ async def _run_async(case):
     it.use(RecorderPlugin(log))
     cnt = _COUNTER
     cnt.reset()
+    ss = _SelfSends(it, True)
     try:
         await it.start()
         await _drain(it)
         out.append(observe(it, log, nerr=cnt.n, cuts=cnt.cuts))
+        out[-1].update(chain_cuts=cnt.chain_cuts, self_sends=ss.take())
     except XStateMachineError as x:
         out.append(observe(it, log, type(x).__name__))
         return out
@@ -305,11 +343,14 @@ async def _run_async(case):
         cnt.reset()
         can, mutated = _probe_can(it, op, log)
         log.clear()
+        ss.take()
+        ss.n -= 1            # the harness's own send below
         await it.send(_mk_event(op))
         await _drain(it)
         out.append(observe(it, log, nerr=cnt.n, cuts=cnt.cuts))
         out[-1]["can"] = can
         out[-1]["can_mutated"] = mutated
+        out[-1].update(chain_cuts=cnt.chain_cuts, self_sends=max(0, ss.take()))
     await it.stop()
     return out
 
@@ -336,6 +377,21 @@ RUNNERS = {"sync": run_sync, "async": run_async}
 
 def run_guarded(flavor, case, timeout=10):
     """run one case under a SIGALRM watchdog; returns ('ok', obs) | ('hang', None) | ('crash', repr)"""
+    try:
+        return _run_guarded(flavor, case, timeout)
+    except Hang:
+        # the repeating watchdog fired once more while the run was unwinding (inside an `except`/`finally`
+        # of _run_guarded): that is still a hang, not a crash of the harness
+        for _ in range(10):
+            try:
+                signal.setitimer(signal.ITIMER_REAL, 0)
+                break
+            except Hang:
+                continue
+        return ("hang", None)
+
+
+def _run_guarded(flavor, case, timeout=10):
     old = signal.signal(signal.SIGALRM, _alarm)
     _HUNG[0] = False
     # repeating timer: an exception raised inside a weakref/GC callback is swallowed by CPython,
